@@ -2,13 +2,15 @@
 from propslib import comp_scope
 
 PROP = dict(
-    extract=["editor", "process_state", "sysloader"],
-    lean_targets=["Chewing.Props.C17", "Chewing.Props.C12NewCtx"],
+    extract=["editor", "process_state", "sysloader", "capi_keys", "capi_getters"],
+    lean_targets=["Chewing.Props.C17", "Chewing.Props.C12NewCtx", "Chewing.Props.C17CApi"],
     runs=[dict(bin="editor", args=["--queries"], tag="editor"),
           dict(bin="editor", args=["--c17-pairs"], tag="pairs"),
           dict(bin="capi_pure", tag="capi", timeout=900, timeout_thorough=3000),
-          dict(bin="newctx", tag="newctx", timeout=900, timeout_thorough=3000)],
-    scope=comp_scope("ed", "edq", "sysl"),
+          dict(bin="newctx", tag="newctx", timeout=900, timeout_thorough=3000),
+          dict(bin="capi_props", tag="capi_props", args=["--histories", "300", "--calls", "40"],
+               args_thorough=["--histories", "6000", "--calls", "40"])],
+    scope=comp_scope("ed", "edq", "sysl", "capiget"),
     level="proof",
     exhaustive=False,
     rule="one evaluation = one transcript record recomputed by the model from the implementation's own complete pre-state: "
@@ -24,7 +26,13 @@ PROP = dict(
          "orders, interleaved on one thread and with one thread per context (every other trace also created on those threads), every "
          "call's return value and the full observation (all getters, the four enumeration loops — the symbol-table candidate list "
          "after the backquote key / Ctrl-0/1, easy-symbol output, conversions) compared with the SAME context run ALONE in a fresh "
-         "process (stats capi.D.*: pairs with different symbols.dat / swkb.dat / dictionaries); plus the logger-slot witness",
+         "process (stats capi.D.*: pairs with different symbols.dat / swkb.dat / dictionaries); plus the logger-slot witness. "
+         "Records `capiget obs` (run capi_props, work package capiget): one evaluation = the answers of ALL modelled C getters "
+         "(30 groups: buffer / cursor / bopomofo / commit / aux Check, Len, String and String_static, the candidate counters, "
+         "string_by_index(_static) for every index and three indices beyond, the Enumerate/hasNext/String loop, list_has_next/prev, "
+         "the interval loop, CheckIgnore / CheckAbsorb, eleven legacy mode getters) of the REAL C context after one call of a generated "
+         "C-API history, recomputed by the Lean getter model (Model/CApiGetters.lean over the table regenerated from io.rs) from the "
+         "answers of the twin editor's Rust getters; #stat capi_props.getter_records, .getter_records_with_open_list",
     trusted_base=["hook H1 (Editor::verif_snapshot, TrieBuf::verif_snapshot) is read-only; layout and conversion answers are recorded "
                   "through wrapper objects installed through the public constructors",
                   "the C layer (capi/src/io.rs) is not modelled in Lean beyond the four iterator slots and the logger slot: its purity, "
